@@ -206,6 +206,15 @@ Definition pB' : backend :=
   lib [2] [(MLookupMany, RMap [((2, 1), MList [trk 2001]); ((1, 1), MList [trk 2002])]);
            (MGetImages, RMap [((2, 1), MList [img 2001]); ((1, 1), MList [img 2002])])].
 
+(* populations of the non-vacuity examples *)
+Definition pC : backend := mkB [3] true false false false true (script []).
+Definition pD : backend := lib [4] [(MLookupMany, RRaise KLookup)].
+Definition pW : backend :=
+  lib [5] [(MBrowse, RVal CRef 7); (PGetItems, RList [EObj CTrack 1 true]); (PLookup, RVal CRef 7);
+           (PSave, RRaise KException); (PDelete, RWrong)].
+Definition mxW : mixer :=
+  script [(XGetVolume, RInt 101); (XSetVolume, RNone); (XGetMute, RWrong); (XSetMute, RRaise KException)].
+
 (* ------------------------------------------------------------------ URI scheme text *)
 
 (* a registered scheme can only ever be matched if it is written in lower case *)
